@@ -40,7 +40,7 @@ RecursionKey = Tuple[AnyType, Optional[AnyConversion]]
 class RecursiveChecker(ConversionsVisitor[Conv, Any], ObjectVisitor[Any]):
     def __init__(self, default_conversion: DefaultConversion):
         super().__init__(default_conversion)
-        self._cache = recursion_cache(self.__class__)
+        self._cache = recursion_cache(self.__class__, default_conversion)
         self._recursive: Dict[RecursionKey, Set[RecursionKey]] = {}
         self._all_recursive: Set[RecursionKey] = set()
         self._guard: List[RecursionKey] = []
@@ -118,7 +118,10 @@ class SerializationRecursiveChecker(
 
 
 @cache  # use @cache for reset
-def recursion_cache(checker_cls: Type[RecursiveChecker]) -> Dict[RecursionKey, bool]:
+def recursion_cache(
+    checker_cls: Type[RecursiveChecker], default_conversion: DefaultConversion
+) -> Dict[RecursionKey, bool]:
+    # what a type reaches depends on the default conversion: one memo per default conversion
     return {}
 
 
@@ -135,7 +138,7 @@ def is_recursive(
     checker_cls: Type[RecursiveChecker],
 ) -> bool:
     with _lock:
-        cache, rec_key = recursion_cache(checker_cls), (tp, conversion)
+        cache, rec_key = recursion_cache(checker_cls, default_conversion), (tp, conversion)
         if rec_key not in cache:
             checker_cls(default_conversion).visit_with_conv(tp, conversion)
         return cache[rec_key]
